@@ -53,7 +53,7 @@ func runC20(r *Result, d *drv.Driver, tier string, seed int64, replay string) {
 	if tier == "thorough" {
 		maxOffer = 4
 	}
-	r.Rule = fmt.Sprintf("exhaustive over a 5-version universe {1.4,1.3,1.2,1.1,2.0}: every configured SupportedVersions list of length <= %d (order, duplicates; empty = default, spelled nil / empty literal / filtered-down-to-nothing) x every offer of length <= %d, configured in one of three orders (struct literal / Handle then assignment / assignment then Handle), each sent as a real Discover Versions request to the real Server over an in-memory connection; reply compared with the model and with the property stated directly (empty offer -> whole list in order; else offer filtered by membership); "+
+	r.Rule = fmt.Sprintf("exhaustive over a 5-version universe {1.4,1.3,1.2,1.1,2.0}: every configured SupportedVersions list of length <= %d (order, duplicates; empty = default, spelled nil / empty literal / filtered-down-to-nothing) x every offer of length <= %d plus near-miss offers (every version M.m with M in 0..3, m in 0..5, negative and 8/16-bit-wrapping components, mixed with genuine ones), configured in one of three orders (struct literal / Handle then assignment / assignment then Handle), each sent as a real Discover Versions request to the real Server over an in-memory connection; reply compared with the model and with the property stated directly (empty offer -> whole list in order; else offer filtered by membership); "+
 		"after each server's run the configuration and DefaultSupportedVersions must be unchanged and not share a backing array; the built-in handler is also called in process on each server (the only place the reply is a Go value), its reply checked for shared storage with the configuration, then overwritten and appended to, and the configuration re-read. distinct = one per (configuration, offer)", maxSup, maxOffer)
 	r.Exhaustive = true
 	sups := allLists(maxSup)
@@ -61,6 +61,18 @@ func runC20(r *Result, d *drv.Driver, tier string, seed int64, replay string) {
 	sups = append(sups, nil, nil)
 	nSup := len(sups)
 	offers := allLists(maxOffer)
+	// near misses: versions OUTSIDE the universe that agree with a supported one in one component only (same minor under another
+	// major, same major with another minor), or only after truncation to 8 / 16 bits, alone and next to genuine ones
+	for _, M := range []int32{0, 1, 2, 3} {
+		for m := int32(0); m <= 5; m++ {
+			offers = append(offers, []kmip.ProtocolVersion{{Major: M, Minor: m}})
+		}
+	}
+	offers = append(offers,
+		[]kmip.ProtocolVersion{{Major: -1, Minor: 4}}, []kmip.ProtocolVersion{{Major: 1, Minor: -1}},
+		[]kmip.ProtocolVersion{{Major: 257, Minor: 4}}, []kmip.ProtocolVersion{{Major: 1, Minor: 260}}, []kmip.ProtocolVersion{{Major: 65537, Minor: 65540}},
+		[]kmip.ProtocolVersion{{Major: 2, Minor: 4}, {Major: 1, Minor: 4}}, []kmip.ProtocolVersion{{Major: 2, Minor: 3}, {Major: 2, Minor: 4}, {Major: 1, Minor: 0}},
+		[]kmip.ProtocolVersion{{Major: 4, Minor: 1}, {Major: 1, Minor: 1}, {Major: 0, Minor: 0}})
 	defaultBefore := append([]kmip.ProtocolVersion(nil), kmip.DefaultSupportedVersions...)
 	for si, sup := range sups {
 		// the configuration reaches the Server in the three orders a caller may use: struct literal; other handlers registered
